@@ -70,6 +70,11 @@ package internal
 //@   gvar pos [int]int
 //@   gvar src [int]int
 //@   update after-call calcBucketsLengths#1: base := wsn(out)
+//@   gvar wSrc int
+//@   gvar wPkg int
+//@   update after-call calcBucketsLengths#1: wSrc := ret0; wPkg := ret1
+//@   assert after-call calcBucketsLengths#1: [widthsComputedForThePrintedFormat C16] arg1 == pf
+//@   assert after-call StackLines#1: [linesUseTheComputedWidths C16] arg0 == p && arg1 == &e.Signature && arg2 == wSrc && arg3 == wPkg && arg4 == pf
 //@   update after-call BucketHeader#1: hdr[rangeindex] := ret0
 //@   update after-call StackLines#1: lines[rangeindex] := ret0
 //@   update after-call io.WriteString#2: pos[rangeindex] := wsn(out) - 1; src[wsn(out) - 1] := rangeindex
@@ -96,6 +101,11 @@ package internal
 //@   gvar pos [int]int
 //@   gvar src [int]int
 //@   update after-call calcGoroutinesLengths#1: base := wsn(out)
+//@   gvar wSrc int
+//@   gvar wPkg int
+//@   update after-call calcGoroutinesLengths#1: wSrc := ret0; wPkg := ret1
+//@   assert after-call calcGoroutinesLengths#1: [widthsComputedForThePrintedFormat C16] arg1 == pf
+//@   assert after-call StackLines#1: [linesUseTheComputedWidths C16] arg0 == p && arg1 == &e.Signature && arg2 == wSrc && arg3 == wPkg && arg4 == pf
 //@   update after-call GoroutineHeader#1: hdr[rangeindex] := ret0
 //@   update after-call StackLines#1: lines[rangeindex] := ret0
 //@   update after-call io.WriteString#2: pos[rangeindex] := wsn(out) - 1; src[wsn(out) - 1] := rangeindex
@@ -119,11 +129,17 @@ package internal
 //@ func (pathFormat).createdByString
 //@   requires s != nil
 //@   modifies nothing
+//@   gvar fc string
+//@   update after-call formatCall#1: fc := ret0
+//@   assert after-call formatCall#1: [creatorIsTheFirstCreationFrame C16] arg0 == pf && arg1 == &s.CreatedBy.Calls[0]
+//@   ensures [noCreatorNoText C16] len(s.CreatedBy.Calls) == 0 ==> result == ""
+//@   at-return [creatorText C16] len(s.CreatedBy.Calls) != 0 ==> result == s.CreatedBy.Calls[0].Func.DirName + "." + s.CreatedBy.Calls[0].Func.Name + " @ " + fc
 //@ func calcBucketsLengths
 //@   requires a != nil && forall i :: 0 <= i && i < len(a.Buckets) ==> a.Buckets[i] != nil
 //@   modifies nothing
 //@   gvar fl [int][int]int
 //@   update after-call formatCall#1: fl[rangeindex#1][rangeindex#2] := len(ret0)
+//@   assert after-call formatCall#1: [widthMeasuredOnThePrintedForm C16] arg0 == pf && arg1 == &e.Signature.Stack.Calls[i]
 //@   at-return [sourceColumnWideEnough C16] forall b, i :: 0 <= b && b < len(a.Buckets) && 0 <= i && i < len(a.Buckets[b].Signature.Stack.Calls) ==> fl[b][i] <= result0
 //@   ensures [packageColumnWideEnough C16] forall b, i :: 0 <= b && b < len(a.Buckets) && 0 <= i && i < len(a.Buckets[b].Signature.Stack.Calls) ==> len(a.Buckets[b].Signature.Stack.Calls[i].Func.DirName) <= result1
 //@   loop 0: invariant -1 <= rangeindex && 0 <= srcLen && 0 <= pkgLen
@@ -138,6 +154,7 @@ package internal
 //@   modifies nothing
 //@   gvar fl [int][int]int
 //@   update after-call formatCall#1: fl[rangeindex#1][rangeindex#2] := len(ret0)
+//@   assert after-call formatCall#1: [widthMeasuredOnThePrintedForm C16] arg0 == pf && arg1 == &e.Signature.Stack.Calls[i]
 //@   at-return [sourceColumnWideEnough C16] forall b, i :: 0 <= b && b < len(s.Goroutines) && 0 <= i && i < len(s.Goroutines[b].Signature.Stack.Calls) ==> fl[b][i] <= result0
 //@   ensures [packageColumnWideEnough C16] forall b, i :: 0 <= b && b < len(s.Goroutines) && 0 <= i && i < len(s.Goroutines[b].Signature.Stack.Calls) ==> len(s.Goroutines[b].Signature.Stack.Calls[i].Func.DirName) <= result1
 //@   loop 0: invariant -1 <= rangeindex && 0 <= srcLen && 0 <= pkgLen
